@@ -33,7 +33,7 @@ TRUSTED = [
 
 def gen_inputs(ctx):
     g = symgen.Gen(ctx.rng)
-    der = L.derived_workspaces(g, ctx.rng, 150 if ctx.quick else 800, 2, 3, 5 if ctx.quick else 8)
+    der = L.derived_workspaces(g, ctx.rng, 260 if ctx.quick else 800, 2, 3, 5 if ctx.quick else 8)
     wss, kinds = [], []
     for kind, files, root in der:
         wss.append(L.mk_ws(files, root, ctx.rng, hover=False, completion=False, hints="sample"))
